@@ -28,6 +28,10 @@ CHECKS = {
    text="W1: seeded search over delivery schedules (every composition of short inputs, every split point, 1-byte/zero-length reads, EOF with data) x separators (incl. multi-byte) x comment char x header x BOM, through Config fields or the INPUTMODE variable, stdin or file operand; fields of every execution are compared with encoding/csv (LazyQuotes) on the BOM-less bytes, $0 with the record's own byte range, FIELDS/@name with the header row, and everything with the one-shot run. W2: a writer interpreter in CSV/TSV output mode (print args or $0 rebuild, raw/CRLF) writes generated CR-free rows into a simulated sink whose bytes reach a reader interpreter under a drawn schedule; the values must come back exactly. Sampling, not proof.",
    note="Trusted: encoding/csv.Reader as the RFC 4180 reference named by the property; $0 compared modulo CR for records containing a CR; native-function argument conversion (C17).",
    tech="deterministic simulation: seeded delivery schedules vs encoding/csv reference; simulated writer->reader pipeline"),
+ "C14": dict(cat="exploration", ref="5.6",
+   text="Seeded histories of 1-5 runs on one Interpreter of a multi-mode program, each run with its own Config (stdin bytes and delivery, Vars, operands over a simulated file system, CSV/TSV modes, sandbox flags, Environ) and ending (normal, exit or run-time error in BEGIN/rule/function/for-in/END, native failure, cancellation at a drawn VM step via hook H1 or by script, pre-cancelled context, stdin read error, stdout write error, rejected configuration); every run is executed again on a newly created Interpreter in an identical simulated world and stdout, stderr, status, error, files and probe observations must agree (with ResetVars+ResetRand: all state; without: the variable-blind observations). Sampling, not proof.",
+   note="Without ResetVars, FS/OFS/ORS/RS/SUBSEP/CONVFMT/OFMT/RT are treated as variables that carry over (the probe assigns defaults first). Error texts are compared (same build on both sides).",
+   tech="deterministic simulation: seeded run histories with injected aborts/cancellations vs fresh-interpreter twin"),
 }
 ORDER = ["C07","C08","C11","C12","C13","C14","C15","C19"]
 checks = []
